@@ -399,6 +399,165 @@ def gen_long(ck, count, out, rng):
         out.append(f"substr {ck} {hs} {rng.randint(0, n)} {c0}")
 
 
+# positions / counts whose low 32 (or 31) bits are a small number: a pos or count that is narrowed to 32 bits (or to a
+# signed type) somewhere on its way turns into an in-range position there
+def narrow_points(n):
+    return sorted({2**31 - 1, 2**31, 2**31 + 1, 2**32 - 1, 2**32, 2**32 + 1, 2**32 + 2, 2**32 + n, 2**33 + 1, 2**63,
+                   2**63 + 1, 2**64 - 2**32, 2**64 - 2**32 + 1, 2**64 - 2**31, 2**64 - 2**31 + 1, 2**32 + 2**31 + 1})
+
+
+def gen_narrow(ck, out, rng, hmax=3, nmax=2):
+    """every operation with a pos / count argument on short views, with positions and counts just above 2^31, 2^32,
+    2^63 and just below 2^64 (2^32 + k, 2^64 - 2^32 + k: equal to the in-range position k in their low 32 bits)"""
+    al = ALPHA[ck][:2]
+    H = strings(al, hmax)
+    N = strings(al, nmax)
+    for h in H:
+        hs = L(h)
+        P = narrow_points(len(h))
+        for p in P:
+            for n in N:
+                for fam in FAMS:
+                    out.append(f"{fam} {ck} {hs} {L(n)} {p}")
+                if len(n) == 1:
+                    for fam in FAMS:
+                        out.append(f"{fam}_c {ck} {hs} {n[0]} {p}")
+                        out.append(f"{fam}_p {ck} {hs} {L(n)} {p}")
+                        out.append(f"{fam}_pc {ck} {hs} {L(n)} {p} 1")
+            out.append(f"rmpre {ck} {hs} {p}")
+            out.append(f"rmsuf {ck} {hs} {p}")
+            out.append(f"at {ck} {hs} {p}")
+            out.append(f"substr_d1 {ck} {hs} {p}")
+            out.append(f"copy_d {ck} {hs} {p}")
+            for q in list(range(0, len(h) + 2)) + [NPOS]:
+                out.append(f"substr {ck} {hs} {q} {p}")
+                out.append(f"substr {ck} {hs} {p} {q}")
+                out.append(f"copy {ck} {hs} {p} {q}")
+                out.append(f"copy {ck} {hs} {q} {p}")
+                for b in N[:3]:
+                    out.append(f"compare_3 {ck} {hs} {q} {p} {L(b)}")
+                    out.append(f"compare_3 {ck} {hs} {p} {q} {L(b)}")
+                    out.append(f"compare_3p {ck} {hs} {q} {p} {L(b)}")
+                    out.append(f"compare_5 {ck} {hs} {q} {p} {L(b)} 0 {p}")
+                    out.append(f"compare_5 {ck} {hs} 0 {p} {L(b)} {p} {q}")
+
+
+# ---- huge views (ops big*): lengths around 2^31, 2^32, 2^33 ------------------------------------------------------------
+BIG_CAP = 2**33 + 16
+BIG_LENS = [2**31 - 1, 2**31, 2**31 + 1, 2**31 + 3, 2**32 - 1, 2**32, 2**32 + 1, 2**32 + 3, 2**32 + 2**31 + 2, 2**33, 2**33 + 3]
+BIG_LENS_QUICK = [2**31 - 1, 2**31, 2**31 + 3, 2**32, 2**32 + 3, 2**33]
+
+
+def BV(pre, n):
+    """a big view: explicit prefix + length"""
+    return f"{L(pre)} {n}"
+
+
+def eff(n, p, k):
+    """size of substr(p, k) of a view of n characters (None: pos > size)"""
+    return None if p > n else min(k, n - p)
+
+
+def gen_big(ck, out, rng, thorough=False, light=False):
+    """Views of 2^31 .. 2^33 characters over an untouched zero-filled mapping (harness.cpp BigMap) against short views:
+    every size_t computation of compare / the relational operators / starts_with / ends_with / substr / copy /
+    remove_prefix / remove_suffix / operator[] / back is driven with two lengths (or a length and a position / count)
+    that differ by 2^31, 2^32, 2^32 + 2^31 or 2^33, in both argument orders - a computation narrowed to 32 bits (or to
+    a signed type) gives a different sign / offset / size there and nowhere in the small-length cases.  The explicit
+    prefix is 'abc'-like, the rest of the view is NUL characters; positions just past a multiple of 2^32 land, when
+    narrowed, inside the explicit prefix.  Only min(size) characters are compared, so no case walks a huge range."""
+    al = ALPHA[ck]
+    lens = BIG_LENS if thorough else BIG_LENS_QUICK
+    pre3 = [al[0], al[1], al[0]]
+    pres = [pre3, [al[0], al[1], al[2]]] if not light else [pre3]
+    smalls = [pre3[:k] for k in range(0, 4)] + [[al[0], al[1], al[1]], [al[0], 0], [0], [0, 0], [al[1]]]
+    if not light:
+        smalls += [[al[0], al[1], al[2]], [al[2]], pre3 + [0], pre3 + [0, 0], pre3 + [al[0]]]
+    out.append(f"bigprobe {ck}")
+    for pre in pres:
+        for n in lens:
+            hv = BV(pre, n)
+            for sm in smalls:
+                sv = BV(sm, len(sm))
+                # a short view that is itself a prefix of a big mapping but LONGER than its explicit characters
+                svz = BV(sm, len(sm) + 2)
+                for x, y in ((hv, sv), (sv, hv), (hv, svz), (svz, hv)):
+                    out.append(f"bigcmp {ck} {x} {y}")
+                    out.append(f"bigrel {ck} {x} {y}")
+                    out.append(f"bigstarts {ck} {x} {y}")
+                    out.append(f"bigends {ck} {x} {y}")
+                if 0 not in sm:
+                    out.append(f"bigcmpp {ck} {hv} {L(sm)}")
+                    out.append(f"bigstartsp {ck} {hv} {L(sm)}")
+                    out.append(f"bigendsp {ck} {hv} {L(sm)}")
+                    out.append(f"bigrelpl {ck} {hv} {L(sm)}")
+                    out.append(f"bigrelpr {ck} {hv} {L(sm)}")
+                # substr(pos1, count1) of one side against the other: the substring or the other side is short
+                for p1, k1 in ((0, NPOS), (0, n), (0, n - 1), (0, 2**31), (0, 2**32), (0, 2**32 + len(sm)), (1, NPOS),
+                               (n - len(sm), NPOS), (n - len(sm), len(sm)), (n - 1, 1), (n, 0), (n, NPOS), (n + 1, 0),
+                               (2**32, 3), (2**32 + 1, 2), (2**31, 2), (0, len(sm)), (0, len(sm) + 1)):
+                    e = eff(n, p1, k1)
+                    if e is None or min(e, len(sm)) <= 8:
+                        out.append(f"bigcmp3 {ck} {hv} {p1} {k1} {sv}")
+                        if 0 not in sm and (thorough or rng.random() < 0.5):
+                            out.append(f"bigcmp3p {ck} {hv} {p1} {k1} {L(sm)}")
+                            out.append(f"bigcmp4p {ck} {hv} {p1} {k1} {L(sm)} {rng.randint(0, len(sm))}")
+                    # the short view's substring with a huge count (clamped) against the huge view
+                    out.append(f"bigcmp3 {ck} {sv} {min(p1, len(sm))} {k1} {hv}")
+                    if thorough or rng.random() < 0.35:
+                        p2 = rng.choice([0, 0, 1, len(sm), n - 2, n, 2**32 + 1])
+                        k2 = rng.choice([NPOS, n, 2**31, 2**32, 2**32 + 2, 2, 0])
+                        e2 = eff(len(sm), min(p1, len(sm)), k1)
+                        e1 = eff(n, p2, k2)
+                        if e1 is None or min(e1, e2) <= 8:
+                            out.append(f"bigcmp5 {ck} {hv} {p2} {k2} {sv} {min(p1, len(sm))} {k1}")
+                            out.append(f"bigcmp5 {ck} {sv} {min(p1, len(sm))} {k1} {hv} {p2} {k2}")
+            # one huge view and scalars: substr / copy / remove_prefix / remove_suffix / operator[] / back
+            pts = sorted({0, 1, 2, 3, n - 3, n - 1, n, n + 1, 2**31 - 1, 2**31, 2**31 + 1, 2**32 - 1, 2**32, 2**32 + 1,
+                          2**32 + 2, n - 2**31, n - 2**32, n - 2**32 + 1, NPOS, NPOS - 1, 2**63, 2**63 + 1} - {-1})
+            pts = [p for p in pts if 0 <= p <= NPOS]
+            cnts = [0, 1, 2, 3, n, n - 1, n + 1, 2**31, 2**32, 2**32 + 2, NPOS, 2**63]
+            for p in pts:
+                out.append(f"bigrmpre {ck} {hv} {p}")
+                out.append(f"bigrmsuf {ck} {hv} {p}")
+                out.append(f"bigat {ck} {hv} {p}")
+                for k in cnts:
+                    if light and rng.random() < 0.5:
+                        continue
+                    out.append(f"bigsubstr {ck} {hv} {p} {k}")
+                    e = eff(n, p, k)
+                    if e is None or e <= 64:
+                        out.append(f"bigcopy {ck} {hv} {k} {p}")
+            out.append(f"bigback {ck} {hv}")
+    # the six search families on a huge haystack: forwards from a position near the end, backwards from a small one
+    needles = [[0], [0, 0], [al[0]], [al[1]], [al[0], al[1]], [al[1], al[0]], [al[0], 0], [0, al[0]], []]
+    for pre in pres:
+        for n in lens:
+            hv = BV(pre, n)
+            fwd = sorted({n - 3, n - 2, n - 1, n, n + 1, n + 2**32, 2**32 + n - 1, NPOS, 2**63 + 1})
+            fwd = [p for p in fwd if p <= NPOS and (p > n or n - p <= 64)]
+            bwd = [0, 1, 2, 3, 4, 5]
+            for nd in needles:
+                nv = BV(nd, len(nd))
+                if light and rng.random() < 0.5:
+                    continue
+                for p in fwd:
+                    for fam in ("find", "ffo", "ffno"):
+                        out.append(f"big{fam} {ck} {hv} {nv} {p}")
+                for p in bwd:
+                    for fam in ("rfind", "flo", "flno"):
+                        out.append(f"big{fam} {ck} {hv} {nv} {p}")
+                # a huge NEEDLE against a short haystack (never found; sizes compared / subtracted, nothing walked)
+                for fam in ("find", "rfind"):
+                    for p in (0, 1, len(nd), NPOS):
+                        out.append(f"big{fam} {ck} {nv} {hv} {p}")
+    # two views of ordinary length in the big mappings (the big ops agree with the ordinary ones there)
+    for a in strings(al[:2], 2):
+        for b in strings(al[:2], 2):
+            out.append(f"bigcmp {ck} {BV(a, len(a))} {BV(b, len(b))}")
+            out.append(f"bigrel {ck} {BV(a, len(a))} {BV(b, len(b))}")
+
+
 def gen(tier, rng):
     out = []
     if tier == "thorough":
@@ -412,6 +571,8 @@ def gen(tier, rng):
             gen_long(ck, 3000, out, rng)
             gen_nul(ck, 3, out)
             gen_traits(ck, out, rng, 8)
+            gen_big(ck, out, rng, thorough=True, light=ck in ("s", "b"))
+            gen_narrow(ck, out, rng, 3 if ck in ("c", "w", "u") else 2, 2)
     else:
         gen_exhaustive("c", 4, 3, out, rng)
         gen_exhaustive("w", 3, 2, out, rng, light=True)
@@ -431,6 +592,12 @@ def gen(tier, rng):
         for ck in ("w", "u", "s", "b"):
             gen_nul(ck, 2, out)
             gen_traits(ck, out, rng, 5)
+        gen_narrow("c", out, rng)
+        for ck in ("w", "u", "s", "b"):
+            gen_narrow(ck, out, rng, 2, 1)
+        gen_big("c", out, rng)
+        for ck in ("w", "u", "s", "b"):
+            gen_big(ck, out, rng, light=True)
     return out
 
 
